@@ -455,8 +455,8 @@ def run(tier, seed):
         st6, v6 = explore(U6, SEEDS6, max_depth=1, state_cap=100000, key_prefix="C11")
         parts.append(("U6-depth1-from-8-seeds", st6))
     else:
-        st6, v6 = explore(U6, SEEDS6, max_depth=12, state_cap=6000, key_prefix="C11")
-        parts.append(("U6-closure-cap6000", st6))
+        st6, v6 = explore(U6, SEEDS6, max_depth=12, state_cap=1500, key_prefix="C11")
+        parts.append(("U6-closure-cap1500", st6))
     viols += v6
     states = sum(p[1]["states"] for p in parts)
     trans = sum(p[1]["transitions"] for p in parts)
